@@ -7,8 +7,10 @@ import (
 	"errors"
 	"io"
 	"reflect"
+	"strconv"
 
 	"github.com/vimeo/dials"
+	dflag "github.com/vimeo/dials/sources/flag"
 	"github.com/vimeo/dials/zzverif"
 )
 
@@ -141,6 +143,9 @@ func c18run(watch bool) {
 	aSub := zzverif.Choose("aSub", 8)
 	bSub := zzverif.Choose("bSub", 4)
 	aDef, aFile, aEnv, aFlag := int8(1), int8(2), int8(3), int8(4)
+	if !watch && zzverif.Choose("aflagval", 2) == 1 {
+		aFlag = aDef // a flag explicitly given with the template's own value still wins over lower layers
+	}
 	bDef, bFile, bFlag := int8(11), int8(12), int8(14)
 	badIn := zzverif.Choose("bad", 3) // 0 valid, 1 file makes it invalid, 2 flag makes it invalid
 	c18needFile = zzverif.Choose("needfile", 2) == 1
@@ -165,8 +170,28 @@ func c18run(watch bool) {
 		dec.err = errC18
 	}
 	nNew, nErr := 0, 0
+	// the real dials flag source (standard library flag package) on an explicit argument list
+	var args []string
+	if fl.setA {
+		args = append(args, "-a", strconv.Itoa(int(aFlag)))
+	}
+	if fl.setB {
+		args = append(args, "-b=14")
+	}
+	if fl.setBad {
+		args = append(args, "-bad")
+	}
+	if fl.setCfg {
+		args = append(args, "-cfgfile", fl.cfg)
+	}
+	tmpl := def
+	flagSrc, flagErr := dflag.NewSetWithArgs(dflag.DefaultFlagNameConfig(), &tmpl, args)
+	if flagErr != nil {
+		zzverif.Fail("C18 registering flags failed")
+		return
+	}
 	params := Params[c18cfg]{
-		FlagSource:      &c18flagSrc{fl},
+		FlagSource:      flagSrc,
 		WatchConfigFile: watch,
 		OnNewConfig:     func(context.Context, *c18cfg, *c18cfg) { nNew++ },
 		OnWatchedError:  func(context.Context, error, *c18cfg, *c18cfg) { nErr++ },
